@@ -19,6 +19,7 @@
 import Nuts.Model.ZSetA
 import NutsProofs.Lemmas.ZSetOrder
 import NutsProofs.Lemmas.SkiplistRank
+import NutsProofs.Facts
 namespace NutsProofs.C07
 open Nuts Nuts.Model Nuts.Model.ZSetA NutsProofs NutsProofs.ZOrd
 
@@ -220,6 +221,14 @@ theorem C07_skiplist_queries (ops : List ZOp) (hl : OpsOk [] ops) :
   · intro x y l e1 e2; rw [← hb]; exact getByScoreRange_refines a x y l e1 e2
   · rw [← hb]; exact peekMin_refines a.inv
   · rw [← hb]; exact peekMax_refines s
+
+/-- **regenerated tie of the skiplist model.** The statements of ds/zset/sortedset.go that compute with spans,
+`rank[]` and `traversed`, the conditions of its search loops and its score tests — the lines
+`Nuts.Model.Skiplist` renders as functions — are, on this run, exactly the expected ones
+(`NutsProofs.Facts.expectedSpanStmts`): a change to the arithmetic or to a comparison breaks this obligation
+whether or not a generated history reaches it. -/
+theorem C07_span_arithmetic_regenerated : NutsGen.F.spanStmts = NutsProofs.Facts.expectedSpanStmts :=
+  NutsProofs.Facts.span_arithmetic_ok
 
 /-- the history of the witness below -/
 def wOps : List ZOp := [.put [98] 1 [1] 1, .put [97] 1 [2] 3, .put [99] 0 [3] 2, .put [98] 5 [4] 2, .rem [97], .remRange (-1) 5, .popMin]
